@@ -99,7 +99,7 @@ RangeUnsat(e) == (e.midv >= 0 /\ e.limv >= 0 /\ ~Sat(e))
 ClearlyUnsat(e) ==
   \/ RangeUnsat(e)
   \/ (e.entry = "tree" /\ e.idx >= Cap20)
-  \/ (e.entry # "tree" /\ (~PathOK(e) \/ "wtrunc" \in DOMAIN e.mut \/ "wappend" \in DOMAIN e.mut))
+  \/ (e.entry # "tree" /\ (~PathOK(e) \/ "wtrunc" \in DOMAIN e.mut \/ "wappend" \in DOMAIN e.mut \/ "widxlen" \in DOMAIN e.mut))
   \/ (e.entry = "tree" /\ "reqlen" \in DOMAIN e.mut /\ e.mut.reqlen < 144 + e.siglen)
   \/ (e.entry = "tree" /\ "siglen" \in DOMAIN e.mut /\ e.mut.siglen > e.siglen)
 RcOf(e) == H2(H1(e.s), e.lim)
